@@ -256,3 +256,44 @@ def contains(outer: ast.AST, inner: ast.AST) -> bool:
 def any_call(node: ast.AST, names: Iterable[str]) -> bool:
     s = set(names)
     return any(call_attr(c) in s for c in calls_in(node, local=False))
+
+
+def expand_value_calls(mi, text: str, depth: int = 2) -> str:
+    """In the expression `text`, replace every call `g(args)` of a module-level function g of module `mi` whose return
+    statements all return the same expression over its parameters by that expression (arguments substituted).  Used to
+    look through small validating helpers (`_common_region(a, b)` -> `a.parent`): only the *value* is of interest."""
+    import copy
+
+    from .cfg import CFG
+    from .dataflow import resolved_text
+
+    if depth <= 0:
+        return text
+    try:
+        tree = ast.parse(text, mode="eval")
+    except SyntaxError:
+        return text
+
+    class T(ast.NodeTransformer):
+        def visit_Call(self, node: ast.Call):
+            self.generic_visit(node)
+            if isinstance(node.func, ast.Name) and node.func.id in mi.functions and not node.keywords:
+                g = mi.functions[node.func.id].raw_node
+                params = [a.arg for a in g.args.args]
+                if len(params) != len(node.args):
+                    return node
+                cfg = CFG(g)
+                vals = {resolved_text(cfg, r.value, cfg.node_of(r)) for r in ast.walk(g) if isinstance(r, ast.Return) and r.value is not None}
+                if len(vals) != 1:
+                    return node
+                body = ast.parse(next(iter(vals)), mode="eval").body
+                sub = dict(zip(params, node.args))
+
+                class S(ast.NodeTransformer):
+                    def visit_Name(self, n: ast.Name):
+                        return copy.deepcopy(sub[n.id]) if n.id in sub else n
+
+                return S().visit(body)
+            return node
+
+    return ast.unparse(ast.fix_missing_locations(T().visit(tree)))
